@@ -28,6 +28,11 @@ CHECKS = {
  "C03": ("exploration", "seeded exploration with tiny buffer limits, concurrent producers/flushers, event-triggered cancellation; oracles: occupancy of accepted-unpromised records from the history, TryProduce never blocks, Flush nil => all earlier records promised, no caller blocked on a healthy cluster after heal", BASE),
  "C04": ("exploration", "direct consumers (topics/partitions, PollFetches and PollRecords(n), pause/resume, small fetch limits, session eviction, preferred replicas) under fetch-path faults and leader moves; oracle against the final raw log: per partition strictly increasing offsets, no duplicate, no gap, complete after heal", BASE),
  "C05": ("exploration", "transactional producers (commit/abort/time-out, left-open transactions) sharing partitions with plain producers while read_committed consumers poll; oracle against the reference committed view computed from the markers in the raw log; completeness after heal", BASE),
+ "C07": ("exploration", "group members (eager range/sticky, cooperative-sticky, KIP-848) join, leave, close and restart gracefully under non-fencing faults, leader moves and coordinator rehash; ownership monitor over the rebalance callbacks (assign entry vs revoke/lost return), Close must release everything through a callback, convergence to exactly one live owner per partition after membership settles", BASE + "; runs in which the wire monitor sees a member fenced by the broker are counted out of scope"),
+ "C08": ("exploration", "group scenario with DEFAULT callbacks and autocommit: every OffsetCommit request seen on the wire may only cover records that some member returned from a poll and then polled again; final committed offsets only cover delivered records", BASE),
+ "C09": ("exploration", "one member issues CommitOffsets/CommitOffsetsSync/CommitRecords/CommitUncommittedOffsets sequences under commit-path faults and coordinator moves; oracle: arrival order of OffsetCommit requests at the coordinator respects issue order, final broker value and CommittedOffsets equal the last successful commit", BASE),
+ "C27": ("exploration", "cooperative-sticky groups under churn: every SyncGroup plan sent by the leader is checked against the ownership claims of the same generation's JoinGroup metadata; generations completed after membership settled are bounded", BASE + "; the space of prior ownership states is only sampled through the histories the churn produces"),
+ "C31": ("exploration", "system-level half: with BlockRebalanceOnPoll no revoke/lost callback starts between a poll that returned records and the following AllowRebalance; deadlock-freedom through the bounded-liveness checks of the group scenario", BASE + "; the gate and the synctest mutexes are additionally exercised in isolation by the micro scenario when present"),
  "C14": ("exploration", "hook recorder in every produce run: buffered/unbuffered exactly once per record with the promise's error", BASE + "; fetch-side hooks are checked inside the consumer scenarios (classes C14/fetch-*)"),
  "C18": ("exploration", "wire monitor decodes every Produce request that reaches a broker with kmsg + an independent record-batch decoder: one batch per partition, CRC, counts, deltas, timestamps, producer fields, sequence reuse against the broker's genuine verdict, request <= BrokerMaxWriteBytes, batch <= ProducerBatchMaxBytes; knobs force the limits (1-4 KiB)", BASE + "; produce v0-v2 (message sets) are not reachable because kfake rejects them"),
  "C39": ("exploration", "direct consumers selecting by topic list, regex with exclusion, or explicit partitions while topics are created (matching, non-matching, internal), grown and deleted and the application adds/removes/purges; oracle: every returned record is selected as of its poll, nothing after remove/purge, everything selected is consumed after heal", BASE),
